@@ -63,6 +63,8 @@ def c04(rng, index, tier):
         nets, kind = travgen.draw_nets(rng, rng.choice(["lxc", "lxc", "remote"]), max_workers=3)
         case["nets"], case["worker_kind"] = nets, kind
         case["params"] = {"shared_pool": "/mnt/local/images/shared", "max_tries": str(rng.choice([2, 3, 3, 4])), "max_concurrent_tries": "1"}
+        if kind == "lxc" and rng.random() < 0.3:
+            case["params"]["pool_scope"] = "own swarm shared"
         if rng.random() < 0.4:
             case["params"]["rerun_status"] = "pass fail error"
         case["plan"] = {"default_status": "PASS", "dur_seed": index, "dur_mode": "long", "by_class": {}, "withhold": []}
@@ -76,6 +78,9 @@ def c04(rng, index, tier):
         nets, kind = travgen.draw_nets(rng, rng.choice(["lxc", "lxc", "remote"]), max_workers=5)
         case["nets"], case["worker_kind"] = nets, kind
         case["params"] = travgen.draw_params(rng, "C04", kind)
+        if kind == "lxc" and len(nets.split()) >= 2 and rng.random() < 0.4:
+            # setup shared by the swarm but not beyond it
+            case["params"]["pool_scope"] = rng.choice(["own swarm shared", "own swarm"])
         case["store"] = {"states": {}, "roots": {}}
         case["population"] = "empty"
         case.pop("interrupt_at", None)
